@@ -218,19 +218,29 @@ def run(rep: Report) -> None:
     rep.analysed["logarithms"] = len(ev.logs)
     rep.analysed["logarithmic_units"] = len(ev.logunits)
 
-    # ---- R18.6
+    # ---- R18.6 (decided on the abstract run, not on the text: arms may be reordered or share locals)
+    from ..absint import BoolV, NotImpl
+    from ..e4util import logunit_atom, quant_atom
+    from .c12 import normal_value
     leq = prog.func("Level.__eq__")
-    arms = [s for s in ast.walk(leq.node) if isinstance(s, ast.Return) and isinstance(s.value, ast.Compare)]
-    for i, s in enumerate(arms):
-        c = s.value
-        assert isinstance(c, ast.Compare)
-        left_ok = ast.unparse(c.left) == "self.quantify()"
-        rtxt = ast.unparse(c.comparators[0])
-        rep.check("R18.6", f"Level.__eq__#{i + 1}", left_ok and isinstance(c.ops[0], ast.Eq) and rtxt in ("other.quantify()", "other"),
-                  f"Level.__eq__ compares `{ast.unparse(c)}`: both sides must be the denoted quantities, compared with "
-                  "Quantity.__eq__ so that x == y exactly when y == x", leq.where(s))
-    if len(arms) < 2:
-        rep.fail("R18.6", "Level.__eq__:arms", "expected a Level arm and a Quantity arm returning a comparison", leq.where())
+    ps = leq.params()
+    lu6 = logunit_atom()
+    me6 = LevelV(NumV(Rat.atom("L:a")), lu6)
+    for label, other6 in (("Level", LevelV(NumV(Rat.atom("L:b")), lu6)), ("Quantity", quant_atom("b"))):
+        try:
+            run6 = run_function(prog, resolver, "Level.__eq__", LAYERS, {ps[0]: me6, ps[1]: other6}, inline_depth=2)
+        except Unsupported as e:
+            raise AnalysisError(f"Level.__eq__: {e}")
+        want = sorted([normal_value(run6, me6) or "?", normal_value(run6, other6) or "??"])
+        cmps = [e for e in run6.events if e.kind == "cmp" and e.data.get("func") == "Level.__eq__"
+                and isinstance(e.data["left"], QuantV) and isinstance(e.data["right"], QuantV)]
+        good = [e for e in cmps if e.data["op"] == "Eq" and sorted([repr(e.data["left"].value()), repr(e.data["right"].value())]) == want]
+        rets = [o for o in run6.outcomes if o.kind == "return"]
+        verdicts = bool(rets) and all(isinstance(o.value, BoolV) and isinstance(o.value.cond, tuple) for o in rets)
+        rep.check("R18.6", f"Level.__eq__[{label}]", bool(good) and len(good) == len(cmps) and verdicts,
+                  f"Level.__eq__ with a {label} on the right does not return `self.quantify() == <the quantity the other side denotes>` "
+                  f"(comparisons seen: {[ast.unparse(e.node) for e in cmps]}): both sides must be the denoted quantities, compared with "
+                  "Quantity.__eq__ so that x == y exactly when y == x", leq.where())
     interning_keys(rep, prog)
     rep.assume("in_unit is value-preserving (C04); ln/exp are inverse; B > 1")
     rep.not_decided.append("floating-point rounding of the (algebraically verified) formulas; Level.__add__/__sub__ (not part of the property)")
